@@ -6,6 +6,7 @@ import Dos.Store
 import Dos.IO
 import Dos.IOImport
 import Dos.IOPackAllO
+import Dos.IORepackAll
 import Dos.Wire
 import Dos.ImportCache
 
@@ -197,6 +198,13 @@ def compileOp (t : Tab) (s : St) (args : List String) : Option (List Act) :=
   | ["clean", order] => do pure (actsClean s (← natList order))
   | ["delete", ks] => do pure (actsDelete s (← natList ks))
   | ["repackOne", p, zs] => do pure (actsRepackPack t s (← p.toNat?) (← boolList zs))
+  | ["repackAll", plan] => do
+    -- `p:zs|p:zs`: the packs in the order in which they were repacked, with the verdicts of their rows
+    let pl ← if plan == "-" then some [] else (splitOn1 plan '|').mapM (fun part =>
+      match splitOn1 part ':' with
+      | [p, z] => do pure ((← p.toNat?), (← boolList z))
+      | _ => none)
+    pure (actsRepackAll t s pl)
   | ["addPackedO", comp, nh, rt, fs, cs] => do pure (actsAddPackedO t s (← natList cs) (comp == "1") (nh == "1") (rt == "1") (fs == "1"))
   | ["import", comp, nh, rt, fs, calls] => do
     let cl ← if calls == "-" then some [] else (splitOn1 calls '|').mapM natList
